@@ -14,7 +14,7 @@
    presence word, element order, the selected oneof member, unknown fields in order, and the
    pointer state (NULL / static default / heap) of every absent field. *)
 From Coq Require Import ZArith List Bool.
-From PBC Require Import Impl.Desc Impl.Mem Impl.Pack Impl.Unpack Impl.Canon Proofs.MsgRT4 Proofs.Examples.
+From PBC Require Import Impl.Desc Impl.Mem Impl.Pack Impl.Unpack Impl.Canon Impl.WNorm Proofs.MsgRT4 Proofs.WNormPack Proofs.Examples.
 Import ListNotations.
 Local Open Scope Z_scope.
 
@@ -33,3 +33,21 @@ Theorem C01_nonvacuous : env_ok ex_env = true /\ canon_msg ex_env ex_msg = true 
   exists b, pack_msg ex_env ex_msg = Ok b /\ (length b = 56)%nat.
 Proof. exact (conj ex_env_ok (conj ex_canon ex_pack_nonempty)). Qed.
 Print Assumptions C01_nonvacuous.
+
+(* Beyond the parser's own normal form: Impl/WNorm.v maps a hand-built message to its normal form (has flags
+   to 0/1, values behind a cleared has flag to the initial value, scalars to their width, bools to 0/1, strings
+   and bytes held through the NULL / default pointer to what the serialiser writes for them, array slack
+   dropped, an unselected or unset oneof to its initial state).  Serialisation does not see the difference
+   (pack_wnorm), hence for EVERY message whose normal form is canonical: parsing what pack writes returns that
+   normal form -- equal to the original in every field value, presence, element order, oneof member and unknown
+   field.  The check evaluates the hypothesis on every generated well-formed message (evidence: domain). *)
+Theorem C01_serialisation_ignores_normal_form : forall (E : env), env_ok E = true ->
+  forall m, pack_msg E (wnorm_msg E m) = pack_msg E m.
+Proof. exact pack_wnorm. Qed.
+Print Assumptions C01_serialisation_ignores_normal_form.
+
+Theorem C01_roundtrip_to_normal_form : forall (E : env), env_ok E = true -> forall m b,
+  canon_msg E (wnorm_msg E m) = true -> pack_msg E m = Ok b -> Z.of_nat (length b) <= 2147483647 ->
+  unpack_top E (m_desc m) b = Ok (wnorm_msg E m).
+Proof. exact roundtrip_to_normal_form. Qed.
+Print Assumptions C01_roundtrip_to_normal_form.
